@@ -23,6 +23,7 @@ CONSTANT Variant
 
 \* ----- qualifiers ---------------------------------------------------------------------------------
 QNONE == 0   QSTART == 1   QEND == 2   QALL == 3
+Mod(x, m) == x % m
 HasS(q) == q % 2 = 1
 HasE(q) == q \div 2 = 1
 
@@ -87,7 +88,7 @@ WF(evs, i, inside) ==
        ELSE (q = QALL /\ WF(evs, i + 1, FALSE)) \/ (q = QSTART /\ WF(evs, i + 1, TRUE))
 WellFormedLookups(win) == WF(LkpOf(win), 1, FALSE)
 
-PathAt(L, i) == IF i <= Len(L) THEN L[i].path ELSE NoText
+PathAt(L, i) == IF i >= 1 /\ i <= Len(L) THEN L[i].path ELSE NoText
 
 \* which lookups a path-taking decoder shows, in order (C08): the audited case analysis of bsd.py
 PathsOf(cls, win) ==
